@@ -62,7 +62,9 @@ POOL = {
     'c3xshort': [R(0x76, 1, 4, 0x1000, bytes(range(16)), True), R(0x76, 1, 2, 0x40, b'\x01\x02\x03\x04')],
 }
 SUBPOOL = ['short41', 'data41', 'pic', 'entry', 'zero', 'unk', 'avr3', 'mcs51', 'avrgran1', 'c3xshort']
-FILTERS = [None, ['0x41'], ['0x41,0x70'], ['0x12'], ['0x31,0x51,0x31'], ['0x3b', '0x41'], ['0x70,0x3b']]
+FILTERS = [None, ['0x41'], ['0x41,0x70'], ['0x12'], ['0x31,0x51,0x31'], ['0x3b', '0x41'], ['0x70,0x3b'],
+           # ids taken off the list again with +f (a leading '+' marks such an argument): first, middle and last entry, all entries
+           ['0x31,0x41', '+0x41'], ['0x41,0x31', '+0x41'], ['0x41,0x70,0x3b', '+0x70'], ['0x41', '+0x41'], ['0x3b,0x41,0x70,0x31', '+0x3b,0x70']]
 SEGN = {1: 'CODE', 2: 'DATA', 3: 'IDATA', 4: 'XDATA', 5: 'YDATA', 6: 'BITDATA', 7: 'IO', 8: 'REG', 9: 'ROMDATA', 10: 'EEDATA'}
 
 
@@ -71,9 +73,12 @@ def filter_ids(flt):
         return None
     ids = set()
     for arg in flt:
-        for x in arg.split(','):
-            ids.add(int(x, 16))     # listing an id twice is still "in the list"
-    return ids
+        for x in arg.lstrip('+').split(','):
+            if arg.startswith('+'):
+                ids.discard(int(x, 16))
+            else:
+                ids.add(int(x, 16))     # listing an id twice is still "in the list"
+    return ids or None          # (an empty list is no filter)
 
 
 def subspaces(tier):
@@ -98,7 +103,7 @@ def subspaces(tier):
 def describe(case):
     if 'plist' in case:
         return 'plist ' + (case['plist'] if isinstance(case['plist'], str) else ' '.join(case['plist']))
-    return 'pbind %s%s -> out.p %s' % ('-q ' if case['quiet'] else '', ' '.join(case['files']), ' '.join('-f ' + a for a in (FILTERS[case['filter']] or [])))
+    return 'pbind %s%s -> out.p %s' % ('-q ' if case['quiet'] else '', ' '.join(case['files']), ' '.join(('+f ' + a[1:]) if a.startswith('+') else ('-f ' + a) for a in (FILTERS[case['filter']] or [])))
 
 
 LINE = re.compile(r'^(.{13}) (\S+)\s+([0-9A-F]{8})\s+([0-9A-F]{4})\s+([0-9A-F]{8})\s*$')
@@ -186,7 +191,7 @@ def evaluate(case):
                 want.append(r)
     args = (['-q'] if case['quiet'] else []) + names + ['out.p']
     for a in (flt or []):
-        args += ['-f', a]
+        args += ['+f', a[1:]] if a.startswith('+') else ['-f', a]
     # run from a directory that does not hold the message files: the tool must not depend on where it is started
     o = core.run('pbind', args, timeout=60)
     d = describe(case)
